@@ -406,3 +406,36 @@ M("C08", "brackets-stripped-for-dns-names", "connection.py",
   "    stripped_hostname = asserted_hostname.strip(\"[]\")\n    asserted_hostname = stripped_hostname", rule="C08-R6")
 M("C08", "match-success-without-match", "util/ssl_match_hostname.py",
   "            if host_ip is not None and _ipaddress_match(value, host_ip):\n                return", "            if host_ip is not None or _ipaddress_match(value, host_ip):\n                return", rule="C08-R4")
+
+# --------------------------------------------------------------------------- C09
+M("C09", "forward-https-without-opt-in", "util/proxy.py",
+  "        proxy_url.scheme == \"https\"\n        and proxy_config\n        and proxy_config.use_forwarding_for_https\n", "        proxy_url.scheme == \"https\"\n        and proxy_config\n", rule="C09-R1")
+M("C09", "http-destination-tunnelled-check-dropped", "util/proxy.py",
+  "    if destination_scheme == \"http\":\n        return False\n", "    if destination_scheme == \"http\" and proxy_url.scheme == \"http\":\n        return False\n", rule="C09-R1")
+M("C09", "proxy-headers-merged-unconditionally", "connectionpool.py",
+  "        if not http_tunnel_required:\n            headers = headers.copy()  # type: ignore[attr-defined]\n            headers.update(self.proxy_headers)  # type: ignore[union-attr]",
+  "        if self.proxy is not None:\n            headers = headers.copy()  # type: ignore[attr-defined]\n            headers.update(self.proxy_headers)  # type: ignore[union-attr]", rule="C09-R3")
+M("C09", "no-retunnel-for-closed-pooled-conn", "connectionpool.py",
+  "            if self.proxy is not None and http_tunnel_required and conn.is_closed:", "            if self.proxy is not None and http_tunnel_required and not conn.has_connected_to_proxy and conn.sock is None and self.num_requests == 0:", rule="C09-R4")
+M("C09", "tunnel-decision-on-pool-scheme", "connectionpool.py",
+  "            self.proxy, self.proxy_config, destination_scheme\n        )\n\n        # Merge the proxy headers.", "            self.proxy, self.proxy_config, self.scheme\n        )\n\n        # Merge the proxy headers.", rule="C09-R2")
+M("C09", "origin-sni-self-host-through-tunnel", "connection.py",
+  "                if self._tunnel_scheme == \"https\":\n                    # _connect_tls_proxy will verify and assign proxy_is_verified\n                    self.sock = sock = self._connect_tls_proxy(self.host, sock)\n                    tls_in_tls = True",
+  "                if self._tunnel_scheme == \"https\":\n                    # _connect_tls_proxy will verify and assign proxy_is_verified\n                    self.sock = sock = self._connect_tls_proxy(self.host, sock)", rule="C09-R5")
+M("C09", "tunnel-before-proxy-tls", "connection.py",
+  "                # If we're tunneling it means we're connected to our proxy.\n                self._has_connected_to_proxy = True\n\n                self._tunnel()\n                # Override the host",
+  "                # If we're tunneling it means we're connected to our proxy.\n                self._has_connected_to_proxy = True\n\n                # Override the host", rule="C09-R5")
+M("C09", "connect-host-brackets-stripped", "connectionpool.py",
+  "        self._tunnel_host = normalize_host(host, scheme=self.scheme).lower()", "        self._tunnel_host = _normalize_host(host, scheme=self.scheme).lower()", rule="C09-R7")
+M("C09", "proxy-tls-uses-origin-assertions", "connection.py",
+  "            assert_hostname=proxy_config.assert_hostname,\n            assert_fingerprint=proxy_config.assert_fingerprint,", "            assert_hostname=self.assert_hostname,\n            assert_fingerprint=self.assert_fingerprint,", rule="C09-R5")
+M("C09", "https-pool-dials-origin-despite-proxy", "connectionpool.py",
+  "        if self.proxy is not None and self.proxy.host is not None:\n            actual_host = self.proxy.host\n            actual_port = self.proxy.port\n", "", rule="C09-R6")
+M("C09", "manager-always-origin-form", "poolmanager.py",
+  "        if self._proxy_requires_url_absolute_form(u):\n            response = conn.urlopen(method, url, **kw)\n        else:\n            response = conn.urlopen(method, u.request_uri, **kw)",
+  "        response = conn.urlopen(method, u.request_uri, **kw)", rule="C09-R8")
+M("C09", "close-keeps-tunnel-host", "connection.py",
+  "            self._tunnel_host = None\n            self._tunnel_port = None", "            self._tunnel_port = None", rule="C09-R4")
+M("C09", "proxy-headers-into-request-headers-in-manager", "poolmanager.py",
+  "            headers = kw.get(\"headers\", self.headers)\n            kw[\"headers\"] = self._set_proxy_headers(url, headers)",
+  "            headers = kw.get(\"headers\", self.headers)\n            kw[\"headers\"] = self._set_proxy_headers(url, {**headers, **self.proxy_headers})", rule="C09-R3")
